@@ -39,7 +39,8 @@ ASSUMPTIONS = c15.ASSUMPTIONS[:3] + [
     "the brute force is complete over the universe (at most 96 final states), so no doubled-universe re-check is needed",
 ]
 BOUNDS = {
-    "quick": c15.BOUNDS["quick"] + "; 5 resolver kinds; hash-seed slice: every 40th universe under 3 seeds",
+    "quick": c15.BOUNDS["quick"] + " -- restricted to universes where x-2 carries at most one class; 5 resolver kinds; "
+    "hash-seed slice: every 40th universe under 3 seeds",
     "thorough": c15.BOUNDS["thorough"] + "; hash-seed slice: every 25th universe under 3 seeds",
 }
 
@@ -175,11 +176,6 @@ def premise_upgrade(uni, targets, wit):
 # ------------------------------------------------------------------ the single checking function
 
 
-def oplist(uni, targets, kind):
-    res = c15.resolve(uni, targets, kind)
-    return res
-
-
 def check_case(uni, targets, kind, wit=None):
     """-> (messages, info)"""
     r1 = c15.resolve(uni, targets, kind)
@@ -257,8 +253,21 @@ def check_case(uni, targets, kind, wit=None):
 # ------------------------------------------------------------------ hash-seed slice (sub-processes)
 
 
+_fam = {}
+
+
+def family(tier):
+    """C15's families; the quick tier keeps only the universes where x-2 carries at most one dependency class."""
+    if tier not in _fam:
+        f = c15.family(tier)
+        if tier == "quick":
+            f = [e for e in f if len(e[2]) <= 1]
+        _fam[tier] = f
+    return _fam[tier]
+
+
 def seed_slice(tier):
-    fam = c15.family(tier)
+    fam = family(tier)
     return list(range(0, len(fam), SEED_STRIDE[tier]))
 
 
@@ -267,7 +276,7 @@ def compute_oplists(tier, idxs):
     out = []
     _, kinds = dims(tier)
     for i in idxs:
-        for fname, uni, targets, _k in c15.cases_of(tier, i, i + 1):
+        for fname, uni, targets, _k in c15.cases_of(tier, i, i + 1, family(tier)):
             for t in targets:
                 for k in kinds:
                     r = c15.resolve(uni, t, k)
@@ -307,7 +316,9 @@ def dims(tier):
 
 
 def tasks(tier):
-    out = [("enum",) + t for t in c15.tasks(tier)]
+    n = len(family(tier))
+    c = c15.CHUNK[tier]
+    out = [("enum", tier, i, min(i + c, n)) for i in range(0, n, c)]
     sl = seed_slice(tier)
     n = 6 if tier == "quick" else 24
     step = max(1, (len(sl) + n - 1) // n)
@@ -324,7 +335,7 @@ def work(task):
     classes = {}
     viol = []
     samples = []
-    for fname, uni, _t, _k in c15.cases_of(tier, lo, hi):
+    for fname, uni, _t, _k in c15.cases_of(tier, lo, hi, family(tier)):
         wit = witnesses(uni)
         for t in targets:
             for k in kinds:
@@ -349,7 +360,7 @@ def work_seeds(task):
     for s in SEEDS[1:]:
         if len(outs[s]) != len(base):
             raise RuntimeError("seeded sub-processes enumerated different inputs")
-    fam = c15.family(tier)
+    fam = family(tier)
     for j, rec in enumerate(base):
         same = all(outs[s][j] == rec for s in SEEDS[1:])
         k = f"seeds|{rec[3]}|{'same' if same else 'DIFFER'}"
@@ -370,7 +381,45 @@ def replay(case):
     return msgs
 
 
-CLASSIFIERS = {}
+def _k_needs_lower_dependency(case):
+    """The upgrade resolver fails (or settles for a lower target version) and every witness final state holding the highest
+    target versions leaves out the highest version of some non-target package whose blocker matches a package of that
+    witness: the resolver commits to its first pick for a dependency (highest version / first any-of alternative) and does
+    not come back to it when the blocker that pick brought in collides with a later target or dependency."""
+    tags = case.get("tags") or []
+    if case.get("what") != "policy" or not tags or not set(tags) <= {"U-failed", "U-not-highest"}:
+        return False
+    uni, targets = case["uni"], case["targets"]
+    wit = witnesses(uni)
+    want = premise_upgrade(uni, targets, wit)
+    if not want:
+        return False
+    wanted = {h for _, h in want}
+    target_names = {h[0] for h in wanted}
+    good = [w for w in wit if wanted <= {(q[0], q[1]) for q in w}]
+    if not good:
+        return False
+    tops = {}
+    for n, v, s, d in uni["src"]:
+        if n not in target_names and (n not in tops or v > tops[n][1]):
+            tops[n] = (n, v, s, d)
+    for w in good:
+        have = {(q[0], q[1]) for q in w}
+        explained = False
+        for n, v, s, d in tops.values():
+            if (n, v) in have:
+                continue
+            for c in c15.CLS:
+                for clause in c15.parse_dep(d.get(c, "")):
+                    for a in clause:
+                        if a["blk"] and any(c15.ref_match(a, r) for r in w if r[0] != n):
+                            explained = True
+        if not explained:
+            return False
+    return True
+
+
+CLASSIFIERS = {"upgrade-no-retry-of-dependency-version": _k_needs_lower_dependency}
 
 
 def _main():
